@@ -165,7 +165,7 @@ type ordEngine struct {
 	c            *Ctx
 	eff          *effEngine
 	retTainted   map[*core.FuncInfo]bool
-	retParam     map[*core.FuncInfo]int // returns (a conversion of) parameter i unsorted: taint passes through
+	retParam     map[*core.FuncInfo]int  // returns (a conversion of) parameter i unsorted: taint passes through
 	sorts        map[*core.FuncInfo]bool // sorts its slice parameter / result before returning
 	fieldTaint   map[*types.Var]bool
 	iterNext     map[*types.Func]bool // methods wrapping reflect.MapIter.Next
